@@ -125,6 +125,15 @@ class ContMixin:
             raise VCError('mutation of a read-only container value (line %s)' % getattr(node, 'lineno', '?'))
         c.loc.write(st, term)
 
+    def rebind_aliases(self, st, v, newloc):
+        for name, val in list(st.locals.items()):
+            if val is v:
+                nv = Cont(newloc, v.t)
+                for a in ('some', 'empty_literal'):
+                    if hasattr(v, a):
+                        setattr(nv, a, getattr(v, a))
+                st.locals[name] = nv
+
     # ---- list ---------------------------------------------------------------------------
     def l_len(self, c, st):
         return c.t.acc('len')(self.c_term(c, st))
@@ -211,8 +220,9 @@ class ContMixin:
             new = t.mk(z3.Store(has, kt, True), nk, z3.Store(t.acc('val')(cur), kt, vterm))
         self.write_cont(c, st, new, node)
         if isinstance(v, Cont) and isinstance(v.loc, CellLoc):
-            # the fresh container now lives inside the dict: forward the alias
-            v.loc = ItemLoc(c.loc, c.t, kt)
+            # the container now lives inside the dict: local names bound to it become aliases of that slot
+            # (rebinding in THIS state only; Cont objects are shared between forked states)
+            self.rebind_aliases(st, v, ItemLoc(c.loc, c.t, kt))
 
     def d_delete(self, c, k, st, node=None):
         t = c.t
